@@ -115,11 +115,14 @@ class tenmat:
         ), "First argument must be a numeric numpy.ndarray."
 
         # data is 1d array, must convert to 2d array for tenmat
+        was_1d = False
         if len(data.shape) == 1:
             if tshape is None:
                 assert False, "tshape must be specified when data is 1d array."
             else:
                 # make data a 2d array with shape (1, data.shape[0]), i.e., a row vector
+                # (reshaped below to the matrix shape given by rdims, cdims and tshape)
+                was_1d = True
                 data = np.reshape(data.copy(), (1, data.shape[0]), order=self.order)
 
         if len(data.shape) != 2:
@@ -143,10 +146,14 @@ class tenmat:
         alldims = np.array([range(n)])
         rdims, cdims = gather_wrap_dims(n, rdims, cdims)
 
-        # check that data.shape and product of dimensions agree
-        if not np.prod(np.array(tshape)[rdims]) * np.prod(
-            np.array(tshape)[cdims]
-        ) == prod(data.shape):
+        # check that data.shape and the sizes of the row and column modes agree
+        mshape = (
+            int(np.prod(np.array(tshape, dtype=int)[rdims])),
+            int(np.prod(np.array(tshape, dtype=int)[cdims])),
+        )
+        if was_1d and prod(mshape) == prod(data.shape):
+            data = np.reshape(data, mshape, order=self.order)
+        if tuple(data.shape) != mshape:
             assert (
                 False
             ), "data.shape does not match shape specified by rdims, cdims, and tshape."
